@@ -4,6 +4,7 @@ SPEC = {
         "AM.Silence.create_fresh_id", "AM.Silence.create_start_not_past",
         "AM.Silence.edit_compatible_keeps_id", "AM.Silence.edit_incompatible_expires_old_creates_new",
         "AM.Silence.unknown_id_rejected", "AM.Silence.api_rejects_past_end", "AM.Silence.rejected_op_changes_nothing",
+        "AM.Silence.invalid_input_rejected", "AM.Silence.validate_false_of_bad_set",
         "AM.Silence.expire_effective", "AM.Silence.expire_idempotent",
         "AM.Silence.expired_stays_step", "AM.Silence.expired_never_active_again",
         "AM.Silence.queryable_until_retention", "AM.Silence.gc_removes_after_retention",
@@ -17,9 +18,9 @@ SPEC = {
     "rule": "random lifecycles on one real silence.Silences driven through the api/v2 HTTP handlers in-process (POST /silences, DELETE and GET "
             "/silence/{id}, GET /silences via api.Handler.ServeHTTP) and through Silences.Set/Expire/GC/Query directly, under synctest virtual "
             "time on a 500 ms grid; the next instant is drawn from the boundaries (-1,0,+1 step) of stored silences' start / end / end+retention, "
-            "sometimes repeating the same instant; creates, compatible and incompatible edits (same matchers / one component of the stored matcher sets changed - operator only, value only, name only, a matcher or a set added, dropped or moved / another catalog entry; half of the direct edits are read-modify-write (`setq`: the proto handed to Set is the object Silences.QueryOne(QIDs(id)) returned, edited field by field); same/shifted start "
+            "sometimes repeating the same instant; creates, compatible and incompatible edits (same matchers / one component of the stored matcher sets changed - operator only, value only, name only, a matcher or a set added, dropped or moved / another catalog entry; half of the direct edits are read-modify-write (`setq`: the proto handed to Set is the object Silences.QueryOne(QIDs(id)) returned, edited field by field; a third of the API edits are the client round trip `postg`: the matchers POSTed back are the ones GET /api/v2/silence/{id} returned, in that order, for silences created with matchers in non-alphabetical order too); same/shifted start "
             "within and across a second, end before/at/after now), nil start/end (direct Set), unknown ids, invalid-input stream (no or empty "
-            "matcher set, all matchers matching empty, bad regex, empty name, end<start, end in the past), size limit and count limit; "
+            "matcher set, all matchers matching empty - in the first or only in a later matcher set of a multi-set silence, on create and on edit (`invalid_input_rejected`) -, bad regex, empty name, end<start, end in the past), size limit and count limit; "
             "non-trivial = hits a tagged branch (set:create/in-place/replace/invalid/notfound/limit/toobig/silently-dropped, post:400/404, "
             "expire:pending/active/expired/unknown/tie-dropped, gc:removed/at-retention-boundary, get:at-end-boundary, list:multi-set-500)",
     "assumptions": [
